@@ -977,6 +977,10 @@ package eventbus
 //@   requires bus != nil && handler != nil && subStore != nil && ctx != nil
 //@   ensures [C12.live.handled] cnt(handlerCall) == 1 && lastarg(handlerCall, 0) == handler && lastarg(handlerCall, 1) == event
 //@   at call:SubscriptionStore.SaveOffset assert [C12.live.order] cnt(handlerCall) == 1
+// what the property needs: the position saved is the position of the event this
+// call just handled (recordedAt(event): the offset its publish was persisted at).
+// The wrapper has no way to know it: it saves the bus-wide last offset instead.
+//@   at call:SubscriptionStore.SaveOffset assert [C12.live.own] offset == recordedAt(event)
 //@   ensures [C12.live.ids] cnt(saveOffset) <= 1 && (cnt(saveOffset) == 1 ==> lastarg(saveOffset, 0, Iface) == subStore && lastarg(saveOffset, 2, String) == subscriptionID
 //@        && lastarg(saveOffset, 3, String) == acq(bus.lastOffset))
 //@   ensures [C12.live.monotone] cnt(saveOffset) == 1 ==> lastarg(saveOffset, 3, String) != ""
